@@ -111,6 +111,7 @@ inductive WB | idle | held | done
   deriving DecidableEq, Repr, Hashable
 
 inductive RunPc | idle | startWatch | callRh | inRh | closeRunning | waitClosing | waitClosed | ret
+  | failed   -- Run returned the error of its RunHandlers call (a Subscribe failed); `isRunning` stays set
   deriving DecidableEq, Repr, Hashable
 
 inductive WPc | off | presel | sel | wait | check | done
@@ -150,7 +151,7 @@ def init : St :=
 inductive Action
   | addHandler
   | runCall | runWatch | runRh | runRunning | runCancelStep | runRet
-  | rhCall | rhSub (i : Nat) | rhStep | rhSpawn | rhEnd
+  | rhCall | rhSub (i : Nat) | rhSubFail (i : Nat) | rhStep | rhSpawn | rhEnd
   | emit (i : Nat) | pumpOut (i : Nat) | pumpDrop (i : Nat) | pumpEnd (i : Nat) | innerCtx (i : Nat)
   | dispatch (i : Nat) | loopEnd (i : Nat) | pubClose (i : Nat) | wgDone (i : Nat) | loopDelete (i : Nat)
   | hStart (m : Nat) | hReturn (m : Nat) (ok : Bool) | hPublished (m : Nat) (ok : Bool) | hSettle (m : Nat)
@@ -208,6 +209,15 @@ def act (fx : Fix) (s : St) : Action → Option St
       if h.started = false ∧ h.removed = false then
         some { (updH s i fun h => { h with subCalls := h.subCalls + 1, pump := .idle, viaRun := v })
                  with hl := .rh v (some (i, 0)) }
+      else none
+    | _, _ => none
+  /- a decorator or `Subscribe` fails for handler i: RunHandlers returns the error (deferred Unlock); nothing of the handler
+     has been touched – `started` is still false, so the next RunHandlers call tries again.  Run's own call makes Run
+     return that error. -/
+  | .rhSubFail i =>
+    match s.hl, s.hs[i]? with
+    | .rh v none, some h =>
+      if h.started = false ∧ h.removed = false then some { s with hl := .free, run := if v then .failed else s.run }
       else none
     | _, _ => none
   | .rhStep =>
@@ -413,7 +423,7 @@ def act (fx : Fix) (s : St) : Action → Option St
 
 /-- environment actions (callers, subscribers' emissions, handler outcomes, timer); everything else is the router's own -/
 def Action.isEnv : Action → Bool
-  | .addHandler | .runCall | .rhCall | .emit _ | .hReturn _ _ | .hPublished _ _ | .stop _ | .cancelExt
+  | .addHandler | .runCall | .rhCall | .rhSubFail _ | .emit _ | .hReturn _ _ | .hPublished _ _ | .stop _ | .cancelExt
   | .closeCall | .timer => true
   | _ => false
 
@@ -423,7 +433,7 @@ def cands (s : St) : List Action :=
    .cancelExt, .closeCall, .timer, .wLoops, .wLock, .wRunning, .watchArrive, .watchTok, .watchClosed, .watchZero,
    .watchCheck]
   ++ (List.range s.hs.length).flatMap (fun i =>
-      [.rhSub i, .emit i, .pumpOut i, .pumpDrop i, .pumpEnd i, .innerCtx i, .dispatch i, .loopEnd i, .pubClose i,
+      [.rhSub i, .rhSubFail i, .emit i, .pumpOut i, .pumpDrop i, .pumpEnd i, .innerCtx i, .dispatch i, .loopEnd i, .pubClose i,
        .wgDone i, .loopDelete i, .hcClose i, .hcCtx i, .hcInnerRet i, .hcPumpWaited i, .hcStop i, .stop i])
   ++ (List.range s.msgs.length).flatMap (fun m =>
       [.hStart m, .hReturn m true, .hReturn m false, .hPublished m true, .hPublished m false, .hSettle m])
